@@ -770,7 +770,22 @@ func runURIProgram(p *uriProgram) string {
 		case "set-host":
 			u.SetHost(o.A)
 		case "update":
+			wantHost := strings.ToLower(string(u.Host()))
+			ref := o.A
+			if i := strings.Index(ref, "://"); i > 0 && !strings.ContainsAny(ref[:i], "/?#") {
+				ref = ref[i+1:]
+			}
+			if strings.HasPrefix(ref, "//") {
+				wantHost = strings.ToLower(ref[2:])
+				if i := strings.IndexAny(wantHost, "/?#"); i >= 0 {
+					wantHost = wantHost[:i]
+				}
+			}
 			u.Update(o.A)
+			// "//" introduces an authority only at the start of a reference or directly behind "scheme:"
+			if got := string(u.Host()); got != wantHost {
+				return fmt.Sprintf("Update(%q): the host is %q afterwards, want %q (full URI %q)", o.A, got, wantHost, u.FullURI())
+			}
 		case "copy":
 			c := &protocol.URI{}
 			u.CopyTo(c)
@@ -790,9 +805,14 @@ func runURIProgram(p *uriProgram) string {
 			wantPath = "/"
 		}
 	}
+	wantQS := string(u.QueryString())
 	full := append([]byte(nil), u.FullURI()...)
 	var u2 protocol.URI
 	u2.Parse(nil, full)
+	// the same getter on both sides: the query string the URI reports is the one it writes
+	if got := string(u2.QueryString()); got != wantQS && !strings.ContainsAny(wantQS, "#") {
+		return fmt.Sprintf("%q: QueryString() of the parsed string is %q, the URI itself reported %q", full, got, wantQS)
+	}
 	gotPath := string(u2.Path())
 	if noNorm {
 		gotPath = string(u2.PathOriginal())
@@ -858,7 +878,8 @@ func TestC17URIPrograms(t *testing.T) {
 				}
 			case "update":
 				// a URI reference as a Location header or a link carries it (Redirect and the client's redirect following go through Update)
-				o.A = rapid.SampledFrom([]string{"?page=2#top", "?page=2", "#top", "b?x=1#y", "/p?x=1#y", "?#", "?a=1&b=2#", "//other.example/z?k=v#h", "c"}).Draw(t, "reference")
+				o.A = rapid.SampledFrom([]string{"?page=2#top", "?page=2", "#top", "b?x=1#y", "/p?x=1#y", "?#", "?a=1&b=2#", "//other.example/z?k=v#h", "c",
+					"/login?next=http://a.com/home", "/x//y", "page?u=//cdn.example/z", "?u=//cdn.example/z", "#sec//2", "http://third.example/p?q=1"}).Draw(t, "reference")
 				queryOps++
 			case "set-hash":
 				o.A = rapid.SampledFrom([]string{"", "frag", "a?b", "a#b", "é"}).Draw(t, "hash")
